@@ -380,6 +380,9 @@ class Engine:
         if isinstance(t, TTuple) and isinstance(v.t, TTuple) and len(t.elems) == len(v.t.elems):
             return mk_tuple_t(t, [self.coerce(tuple_get(v, i), t.elems[i]) for i in range(len(t.elems))])
         if isinstance(t, TList) and isinstance(v.t, TList):
+            if isinstance(v.t.elem, TNone) and isinstance(t.elem, TOpt) and getattr(v, 'py', None) != 'emptylit':
+                # [None, None, ...] as a list of optionals: every element is none
+                return mk_list(t, list_len(v), z3.K(z3.IntSort(), opt_none(t.elem).e))
             if isinstance(v.t.elem, TNone) or getattr(v, 'py', None) == 'emptylit':
                 return empty_list(t)
             if isinstance(t.elem, TRef) and isinstance(v.t.elem, TRef):
